@@ -252,8 +252,8 @@ func (x *runner) genClosure(timeout int) {
 		body = append(body, fmt.Sprintf("[$o%d]", i))
 		optnames = append(optnames, N(uint64(i)))
 	}
-	na := nn + r.Intn(4) - 1
-	if na < 0 || r.Intn(6) == 0 {
+	na := nn + r.Intn(6) - 3
+	if na < 0 || r.Intn(8) == 0 {
 		na = r.Intn(8)
 	}
 	var args, argsCoq []string
